@@ -26,6 +26,8 @@ CLAIMED = {
              note="width<=3 (4 thorough), 2 rows; EncodeCatRows, negative/out-of-range positions outside the claim"),
  'C16': dict(design='C16', text="Random/Fixed/BanditEpsilon/BanditUCB and Misguided wrappers run through solver-enumerated histories (3 rounds, changing action sets incl. unseen and disappearing actions, hashable/int/dense/sparse actions, on-policy and logged learning) with symbolic rewards; ties between value estimates and UCB bounds (sqrt by contract) are decided by z3 so every tie pattern is reached; score() must be a distribution over the offered actions and predict() must return an offered action with exactly its score. Corral: enumerated concrete grid only (its root search is not symbolically encodable).",
              note="Corral's 1e-4 weight claim is checked on a concrete grid of 3-round histories only and stated as such; T<=3 (4 thorough)"),
+ 'C18': dict(design='C18', text="Result.where/where_fin/where_best/raw_learners and moving_average on Results with symbolic rewards and solver-enumerated existing triples, lengths and (duplicate) parameter values: kept pairing groups compared with an independent set-based definition, referential integrity both ways, unchanged remaining values, and every progressive/windowed/final average compared with a naive recomputation as a z3-decided real-arithmetic identity; moving_average vs its textbook definition for every span and weighting.",
+             note="<=2x2x2 triples quick (3x3x1, 3x2x2 thorough); mean->sum/len stub; exp-weighted average up to 1e-9 (its divisor is accumulated in floats)"),
  'C17': dict(design='C17', text="Table.insert/index/where/groupby/copy run on symbolic integer cells; orderings are decided by z3 inside the real sorted/bisect calls; every operator, form, index column list and short operation history within the bounds is compared with a row-by-row list model. Bounded (rows<=3 quick, <=4 thorough), exhaustive within the bound.",
              note="cells int[-1,1] or Missing; 'match'/regex outside the claim; Missing ordering reference = the table's own scan path"),
 }
